@@ -8,12 +8,17 @@ from ..core.runner import main
 from ..core.values import num, unnum
 
 
-def lib_notation(s, w):
-    """T10 (start bit, width) -> the library's canonical [mask, offset]."""
+def lib_notation(s, w, pad=0, room=None):
+    """T10 (start bit, width) -> the library's [mask, offset].  pad > 0 gives the same field
+    through a mask that spans `pad` further bytes after the field (e.g. [0xFF00, n] for the
+    byte at n): still a contiguous run, at a bit alignment of 8 or more.  `room` = buffer
+    length; the window never leaves the buffer."""
     off = s // 8
     r = s % 8
     n = (r + w + 7) // 8
-    mask = ((1 << w) - 1) << (8 * n - r - w)
+    if room is not None:
+        pad = max(0, min(pad, room - off - n))
+    mask = ((1 << w) - 1) << (8 * (n + pad) - r - w)
     return [mask, off]
 
 
@@ -21,17 +26,26 @@ def replay_case(conv, c):
     """spec -> code: one terminal state of MC_Bits. Returns list of (clause, detail)."""
     bad = []
     names = ["f%d" % i for i in range(len(c["layout"]))]
-    check = {nm: lib_notation(s, w) for nm, (s, w) in zip(names, c["layout"])}
     vals = {nm: unnum(v) for nm, v in zip(names, c["vals"])}
+    for pad in (0, 1, 2):
+        check = {nm: lib_notation(s, w, pad, len(c["base"])) for nm, (s, w) in zip(names, c["layout"])}
+        bad += _replay_with(conv, c, names, check, vals, pad)
+        if bad:
+            break
+    return bad
+
+
+def _replay_with(conv, c, names, check, vals, pad):
+    bad = []
     for perm in itertools.permutations(names):
         b = bytearray(c["base"])
         try:
             conv.encode_dict({k: vals[k] for k in perm}, {k: check[k] for k in names}, b)
         except Exception as ex:          # the library raising where the spec has a result
-            bad.append(("EncodeMatchesSpec", {"order": list(perm), "raised": repr(ex)}))
+            bad.append(("EncodeMatchesSpec", {"order": list(perm), "raised": repr(ex), "masks": check}))
             break
         if list(b) != c["final"]:
-            bad.append(("EncodeMatchesSpec", {"order": list(perm), "got": list(b)}))
+            bad.append(("EncodeMatchesSpec", {"order": list(perm), "got": list(b), "masks": check}))
             break
     out = {}
     try:
@@ -40,7 +54,7 @@ def replay_case(conv, c):
         bad.append(("DecodeMatchesSpec", {"raised": repr(ex)}))
         return bad
     if out != vals:
-        bad.append(("DecodeMatchesSpec", {"got": {k: int(v) for k, v in out.items()}}))
+        bad.append(("DecodeMatchesSpec", {"got": {k: int(v) for k, v in out.items()}, "masks": check}))
     return bad
 
 
@@ -54,11 +68,11 @@ def gen_events(conv, rng, n_rand, wide):
             for p in range(s, s + w):
                 before[p // 8] &= ~(0x80 >> (p % 8)) & 0xFF
         names = ["f%d" % i for i in range(len(layout))]
-        check = {nm: lib_notation(s, w) for nm, (s, w) in zip(names, layout)}
+        check = {nm: lib_notation(s, w, rng.choice([0, 0, 1, 2, 3]), nbytes) for nm, (s, w) in zip(names, layout)}
         after = bytearray(before)
         conv.encode_dict({names[i]: vals[i] for i in order}, check, after)
         ev.append({"fn": "encode", "layout": [[s, w] for s, w in layout], "vals": [num(v) for v in vals],
-                   "before": list(before), "after": list(after)})
+                   "before": list(before), "after": list(after), "masks": [list(check[nm]) if check[nm][0] < 2 ** 31 else [hex(check[nm][0]), check[nm][1]] for nm in names]})
         out = {}
         conv.decode_bits(after, check, out)
         ev.append({"fn": "decode", "layout": [[s, w] for s, w in layout], "buf": list(after),
@@ -126,7 +140,7 @@ def run(chk, replay=None):
     conv = converter()
     ev = chk.ev
     ev.assumptions += [
-        "masks are given in canonical form (top byte of the mask non-zero), as every table of the library does",
+        "the top byte of a mask is non-zero (as in every table of the library); masks may span further bytes after the field",
         "field bits are zero before encoding (the property quantifies over prior contents outside the field)",
         "TLC 1.8 and the CommunityModules Json/IOUtils modules are trusted",
     ]
